@@ -4,6 +4,7 @@ import (
 	"io"
 	"net/http"
 	"net/url"
+	"strings"
 
 	"github.com/vulcand/oxy/v2/utils"
 )
@@ -54,8 +55,8 @@ type vfAttempt struct {
 type vfHandler struct {
 	fixedResponse bool
 	fixedRead     bool
-	attempts []vfAttempt
-	maxResp  int // length of the response body pool to draw writes from
+	attempts      []vfAttempt
+	maxResp       int // length of the response body pool to draw writes from
 }
 
 func (h *vfHandler) ServeHTTP(w http.ResponseWriter, r *http.Request) {
@@ -72,6 +73,9 @@ func (h *vfHandler) ServeHTTP(w http.ResponseWriter, r *http.Request) {
 	}
 	// scribble on what we were handed
 	r.URL.Path = "/mutated"
+	if vs := r.Header["X-Orig"]; len(vs) > 0 {
+		vs[0] = "scribbled" // in place: the value slice itself must be the attempt's own
+	}
 	r.Header.Set("X-Orig", "mutated")
 	r.Header.Add("X-Added", "1")
 	if r.Method != "HEAD" { // (the buffer decides "no body for HEAD" on the request it handed out)
@@ -115,8 +119,14 @@ func (h *vfHandler) ServeHTTP(w http.ResponseWriter, r *http.Request) {
 		}
 		l = verifConcretize(l, 0, 3)
 		chunk := string(vfPayload[k*3 : k*3+l])
-		n, err := w.Write([]byte(chunk))
-		verifAssert("handler-write-accepted", verifAnd(err == nil, n == len(chunk)))
+		if k == 0 && id == 0 && verifBool("viaCopy") { // first write of the first attempt
+			// streaming handlers (http.ServeContent, ...) hand the writer to io.Copy
+			n, err := io.Copy(w, io.LimitReader(strings.NewReader(chunk), int64(len(chunk))))
+			verifAssert("handler-write-accepted", verifAnd(err == nil, n == int64(len(chunk))))
+		} else {
+			n, err := w.Write([]byte(chunk))
+			verifAssert("handler-write-accepted", verifAnd(err == nil, n == len(chunk)))
+		}
 		a.wrote += chunk
 	}
 	h.attempts = append(h.attempts, a)
@@ -124,7 +134,7 @@ func (h *vfHandler) ServeHTTP(w http.ResponseWriter, r *http.Request) {
 
 // C06 + C07 + C15: one request through the real Buffer.ServeHTTP with real multibuf.
 func VerifBufferServe() {
-	L := verifParam("L") // request body length (concrete per job; contents fixed)
+	L := verifParam("L")       // request body length (concrete per job; contents fixed)
 	mode := verifParam("mode") // 0: request side varies, 1: response side varies
 	h := &vfHandler{fixedResponse: mode == 0, fixedRead: mode == 1}
 	b := &Buffer{next: h, errHandler: errHandler, log: &utils.NoopLogger{}}
